@@ -597,7 +597,7 @@ fn scene_from_xml(root: &Elem, s: &mut Scene, r: &mut Report) {
     s.library_version = s_opt(root, "e57LibraryVersion");
     s.coordinate_metadata = s_opt(root, "coordinateMetadata");
     s.creation = dt_opt(root, "creationDateTime", "e57Root", r);
-    s.extensions = root.nsdecls.iter().filter(|(p, _)| !p.is_empty()).cloned().collect();
+    s.extensions = root.nsdecls.iter().filter(|(p, u)| !p.is_empty() && u != E57_NS).cloned().collect();
     if let Some(d3) = root.child(E57_NS, "data3D") {
         for (ci, vc) in d3.child_elems().filter(|c| c.ns == E57_NS).enumerate() {
             let w = format!("data3D[{ci}]");
